@@ -564,12 +564,23 @@ def run_case(case, repo_checks=True):
         def on_s3_event(key):
             # an event-based canceller whose trigger just became due runs
             # next (otherwise the default policy would keep the current
-            # thread and the cancel would land after the transfer)
-            for th in waiting_cancellers:
-                if th.alive and th.pred is not None and th.pred():
-                    waiting_cancellers.remove(th)
-                    sched.point(None, 'cancel.due', prefer=th)
-                    break
+            # thread and the cancel would land after the transfer).  The
+            # predicates call into the library (future.done()): line-level
+            # scheduling points are suppressed while they run, this hook is
+            # harness code and must not be interleaved with itself
+            due = None
+            prev = sched.busy
+            sched.busy = True
+            try:
+                for th in waiting_cancellers:
+                    if th.alive and th.pred is not None and th.pred():
+                        waiting_cancellers.remove(th)
+                        due = th
+                        break
+            finally:
+                sched.busy = prev
+            if due is not None:
+                sched.point(None, 'cancel.due', prefer=due)
         svc.event_hook = on_s3_event
         kbi = case.get('kbi')
         if kbi:
